@@ -76,10 +76,12 @@ Fixpoint e2d (t : xml) : pystr * dval :=
       end
   end.
 
-(* exceptions that escape async_get_description_dict's owner *)
+(* exception classes the harness can observe escaping async_get_description_dict's owner; since the repair D37
+   (defusedxml refusals and a root element without child elements count as "no description") the conversion
+   itself raises none of them *)
 Inductive xcls :=
-| XAttr       (* AttributeError: 'str' object has no attribute 'get' (root element with text only) *)
-| XHostile    (* defusedxml refusals (EntitiesForbidden, ...): ValueError subclasses, not ParseError *)
+| XAttr       (* AttributeError: 'str' object has no attribute 'get' (before D37: root element with text only) *)
+| XHostile    (* defusedxml refusals (before D37: EntitiesForbidden, ...: ValueError subclasses, not ParseError) *)
 | XKey        (* KeyError *)
 | XOther.     (* anything else (never produced by the model) *)
 
@@ -90,7 +92,7 @@ Definition desc_of (t : xml) : result dval xcls :=
     match v with
     | DNone => RVal DNone
     | DDict d => RVal (match dget str_eqb d s_device with Some x => x | None => DNone end)
-    | DStr _ | DList _ | DAlien => RExc XAttr
+    | DStr _ | DList _ | DAlien => RVal DNone      (* `not isinstance(root, Mapping)` *)
     end
   else RVal DNone.      (* etree_to_dict(tree).get("root") is None *)
 
@@ -116,17 +118,17 @@ Definition convert (o : outcome) : result dval xcls :=
       if st =? 200 then
         match b with
         | BEmpty | BBad => RVal DNone
-        | BHostile => RExc XHostile
+        | BHostile => RVal DNone                  (* except (ParseError, DefusedXmlException) *)
         | BDoc t => desc_of t
         end
       else RVal DNone
   end.
 
-(* "a failed download": HTTP error, transport error, malformed (unparsable) XML, empty document *)
+(* "a failed download": HTTP error, transport error, malformed (unparsable or refused) XML, empty document *)
 Definition is_failure (o : outcome) : bool :=
   match o with
   | ORaise _ => true
-  | OResp st b => negb (st =? 200) || match b with BEmpty | BBad => true | _ => false end
+  | OResp st b => negb (st =? 200) || match b with BEmpty | BBad | BHostile => true | _ => false end
   end.
 
 (* decidable equality on values / exception classes, used by the spec clauses *)
